@@ -301,7 +301,66 @@ def rule_e(ctx, out):
     out.samples.append({"calls_of_pair_returning_functions": n, "pair_returning_functions": sorted(x.split('.')[-1] for x in T)})
 
 
+STRUCTURAL = {"compare_variables", "search_val_in_userdef", "search_all_vals_in_userdef"}
+
+
+def _side(name):
+    n = name.lower()
+    if "orig" in n:
+        return "orig"
+    if "opt" in n:
+        return "opt"
+    return None
+
+
+def _name_level_compare(test):
+    """A Compare between two whole values of the two specifications (records, record lists, dependence pairs) by ==, !=, in, not in."""
+    if isinstance(test, ast.Compare) and len(test.ops) == 1 and isinstance(test.ops[0], (ast.Eq, ast.NotEq, ast.In, ast.NotIn)):
+        l, r = test.left, test.comparators[0]
+        if isinstance(l, ast.Name) and isinstance(r, ast.Name):
+            sl, sr = _side(l.id), _side(r.id)
+            if {sl, sr} == {"orig", "opt"} or (sr == "opt" and isinstance(test.ops[0], (ast.In, ast.NotIn))):
+                return True
+    return False
+
+
+def rule_f(ctx, out):
+    """Stack variable names and instruction ids are local to each specification.  Equality (or membership) of whole records /
+    dependence pairs of the two sides is therefore no evidence that they denote the same thing, and must not be what decides
+    whether the structural comparison is carried out."""
+    n = 0
+    for f in ctx.p.funcs_in(V):
+        for c in calls_in(f.node):
+            if call_name(c) not in STRUCTURAL:
+                continue
+            cur = c
+            while cur is not None and cur is not f.node:
+                p = getattr(cur, "_parent", None)
+                if isinstance(p, ast.If) and (cur in p.body or any(cur is x for b in p.body for x in ast.walk(b))):
+                    t = p.test
+                    n += 1
+                    if _name_level_compare(t):
+                        out.bad(f"name-equality-shortcut:{f.name}:{norm(t)}", f"in {f.name} the structural comparison `{short(c, 50)}` is only carried out when "
+                                f"`{norm(t)}`: two values with the same local names are taken to be the same without looking at what they denote",
+                                where(f, p))
+                    elif isinstance(t, ast.BoolOp) and isinstance(t.op, ast.Or) and any(_name_level_compare(v) for v in t.values):
+                        # skipped only when every disjunct is false: sound if the others say "no operands" and "no value"
+                        txt = norm(t)
+                        if "inpt_sk" in txt and "value" in txt:
+                            out.ok({"function": f.name, "shortcut": txt, "restricted_to": "records without operands and value"})
+                        else:
+                            out.bad(f"name-equality-shortcut:{f.name}:{norm(t)}", f"in {f.name} `{norm(t)}` lets records with operands or a value be matched by name",
+                                    where(f, p))
+                    else:
+                        out.ok()
+                cur = p
+    out.samples.append({"guards_of_structural_comparisons_examined": n})
+    if n < 8:
+        raise AnalysisError(f"only {n} guards around structural comparisons found")
+
+
 RULES = [
+    ("C05.f", "no name-equality shortcut around the structural comparison", 8, rule_f),
     ("C05.e", "a (verdict, reason) pair is never used as a truth value", 15, rule_e),
     ("C05.a", "no opcode conflation inherited from the front-end", 40, rule_a),
     ("C05.b", "commutativity only where the EVM operation is commutative", 12, rule_b),
